@@ -190,3 +190,52 @@ Proof.
     rewrite Forall_forall in Hd. apply Hd. rewrite in_app_iff. right. left. reflexivity. }
   rewrite E in Hdig. vm_compute in Hdig. destruct Hdig as [A1 A2]. apply A2. reflexivity.
 Qed.
+
+(* ---- the MCP server-list cache lives in the same directory under a name of the same shape *)
+Lemma replace_ch_id a b s t : ~ In b t -> replace_ch a b s = t -> s = t.
+Proof.
+  revert t; induction s as [|c s IH]; intros [|d t] Hb H; try discriminate; [reflexivity|].
+  unfold replace_ch in H. cbn [map] in H. injection H as Hc Hs.
+  destruct (N.eqb_spec c a) as [->|Hne].
+  - exfalso. apply Hb. left. symmetry. exact Hc.
+  - subst d. f_equal. apply IH; [intro; apply Hb; right; assumption | exact Hs].
+Qed.
+
+Definition sid_name (sid : json) : str :=
+  if truthy sid then match sid with JStr s => replace_ch SL_SID_FROM SL_SID_TO s ++ SL_CACHE_SUFFIX | _ => [] end
+  else SL_SID_DEFAULT ++ SL_CACHE_SUFFIX.
+
+Lemma cache_path_name base sid p : get_cache_path base sid = Some p -> p = cache_dir base ++ slash :: sid_name sid.
+Proof.
+  unfold get_cache_path, sid_name. destruct (truthy sid).
+  - destruct sid; try discriminate. intro H; injection H as <-.
+    apply good_dir_join; [apply cache_dir_good | apply prefixb_noslash, (name_ok _ (replace_noslash s))].
+  - intro H; injection H as <-. destruct sid_facts as [_ [_ [_ [Hd _]]]].
+    apply good_dir_join; [apply cache_dir_good | apply prefixb_noslash, (name_ok _ Hd)].
+Qed.
+
+Definition MCP_SID : str := firstn (length SL_MCP_CACHE_NAME - length SL_CACHE_SUFFIX) SL_MCP_CACHE_NAME.
+
+Lemma mcp_path_eq base : mcp_cache_path base = cache_dir base ++ slash :: SL_MCP_CACHE_NAME.
+Proof. unfold mcp_cache_path. apply good_dir_join; [apply cache_dir_good | vm_compute; reflexivity]. Qed.
+
+Lemma mcp_alias base pid :
+  get_cache_path base (JStr MCP_SID) = Some (mcp_cache_path base) /\ tmp_of pid (mcp_cache_path base) = mcp_tmp base pid.
+Proof.
+  split; [|reflexivity].
+  destruct (get_cache_path base (JStr MCP_SID)) as [p|] eqn:E; [|vm_compute in E; discriminate].
+  rewrite (cache_path_name _ _ _ E), mcp_path_eq. do 3 f_equal.
+Qed.
+
+Lemma mcp_alias_only base sid : get_cache_path base sid = Some (mcp_cache_path base) -> sid = JStr MCP_SID.
+Proof.
+  intro H. pose proof (cache_path_name _ _ _ H) as E. rewrite mcp_path_eq in E.
+  apply app_inv_head in E. injection E as E.
+  unfold get_cache_path in H. unfold sid_name in E. destruct (truthy sid).
+  - destruct sid as [| | |s| |]; try discriminate. f_equal.
+    assert (Hm : SL_MCP_CACHE_NAME = MCP_SID ++ SL_CACHE_SUFFIX) by (vm_compute; reflexivity).
+    rewrite Hm in E. apply app_inv_tail in E. symmetry in E.
+    apply (replace_ch_id SL_SID_FROM SL_SID_TO); [|exact E].
+    vm_compute. intuition discriminate.
+  - vm_compute in E. discriminate.
+Qed.
